@@ -17,7 +17,8 @@ META = {
                    "sqrt(2 v); z3 (nlsat, two real variables) proves |rule - E_{N(m,v)} x^k| <= 1e-5 * 11^k for ALL m in [-5,5], s in "
                    "[0,5] and every degree k < 2 * num_locs; the rule object built after a settings change uses the new number of "
                    "nodes. Bernoulli marginal = Phi(m / sqrt(1+v)) and the conditional distributions' parameters / "
-                   "expected_log_prob structure are proved by congruence on the erf / log atoms.",
+                   "expected_log_prob structure are proved by congruence on the erf / log atoms; SoftmaxLikelihood class "
+                   "probabilities = softmax of the mixed latent features in the documented num_data x num_tasks layout (also n == num_features).",
     "bounds": {"quick": "num_locs in {1,2,3}: all degrees; num_locs 4..5: degrees <= 5; batch shapes (), (2,)",
                "thorough": "num_locs in {1..5}: all degrees; num_locs in {8,20}: degrees <= 7"},
     "outside": ["accuracy of log_normal_cdf against log Phi and of its derivative against phi/Phi (needs verified bounds on erfc; no "
@@ -133,6 +134,30 @@ def conditional_params(S, kind, n):
         S.prove_eq(b, (Sym.const(1.0) - mix) * sc + Sym.const(1.0), "Beta beta = (1 - sigmoid(f)) * scale + 1")
 
 
+def softmax(S, n, mixing):
+    """SoftmaxLikelihood: class logits = (mixing weights applied to the latent features), p(y=c|f) = softmax"""
+    from symten import sym_exp, sym_log
+    F, C = (3, 2) if mixing else (2, 2)
+    lik = gpytorch.likelihoods.SoftmaxLikelihood(num_features=F, num_classes=C, mixing_weights=mixing)
+    if mixing:
+        declare_params(S, lik, "p_", scale=0.5)
+    f = S.randn(n, F)
+    Fs = S.sym_tensor(f, "f")
+    with S.mode():
+        cd = lik(f)
+        probs, logits = cd.probs, cd.logits
+        W = as_sym_arr(SH.get(lik.mixing_weights)) if mixing else None
+    mixed = Fs @ W.T if mixing else Fs
+    ref = np.empty((n, C), dtype=object)
+    for i in range(n):
+        e = [sym_exp(mixed[i, c]) for c in range(C)]
+        tot = sum(e[1:], e[0])
+        for c in range(C):
+            ref[i, c] = e[c] / tot
+    S.prove_eq(probs, ref, "Softmax p(y=c|f) = exp(w_c.f) / sum_k exp(w_k.f)%s" % ("" if mixing else " (no mixing)"))
+    S.check_concrete(tuple(probs.shape) == (n, C), "softmax output shape", str(tuple(probs.shape)))
+
+
 def elp_structure(S, kind, num_locs):
     """expected_log_prob = the rule applied to the documented conditional log density (nodes concrete, everything else symbolic)"""
     n = 2
@@ -208,6 +233,9 @@ def scenarios(tier, seed):
     add("bernoulli", n=2, batch=2)
     for k in ("laplace", "studentt", "beta"):
         add("conditional_params", kind=k, n=2)
+    add("softmax", n=3, mixing=True)   # n == num_features
+    add("softmax", n=2, mixing=True)
+    add("softmax", n=2, mixing=False)  # n == num_features == num_classes
     add("elp_structure", kind="laplace", num_locs=3)
     add("elp_structure", kind="studentt", num_locs=2)
     add("lognormcdf_witnesses")
